@@ -484,6 +484,13 @@ func (s *Server) handlePostTx(w http.ResponseWriter, r *http.Request) {
 		return
 	}
 
+	// Only the primary accepts forwarded transactions. A node that has lost its
+	// lease may still hold the halt lock it granted until the lock's TTL ends.
+	if !s.store.IsPrimary() {
+		Error(w, r, fmt.Errorf("cannot accept forwarded transaction: %w", litefs.ErrReadOnlyReplica), http.StatusServiceUnavailable)
+		return
+	}
+
 	// Ensure database should already exist from halt lock.
 	db := s.store.DB(name)
 	if db == nil {
